@@ -14,6 +14,9 @@ CONSTANTS GroupFacts,      \* set of <<name, tags (set), summary, before, after>
           RegistryNames, DocCmdNames, OverviewNames,
           DefaultMarked,   \* names with the "enabled by default" mark in docs/overview.md
           DocDefaultNames, \* names selected by the documented default rule (computed from the registry tags)
+          ListedBeforeInit, ListedAfterInit,   \* names GetCheckersInfo lists before / after InitEmbeddedRules (process without the analyzer)
+          GroupNames,      \* names of the rule groups of rules.go
+          CliDefaultNames, \* the default -enable list of the built go-critic binary
           ShippedIR, CompiledIR, ShippedDocs, RenderedDocs   \* digests
 VARIABLE x
 Init == x = 0
@@ -22,5 +25,7 @@ Spec == Init /\ [][Next]_x
 Shipped == ShippedIR = CompiledIR
 OneCheckerPerGroup == GroupFacts = EmbeddedFacts /\ Cardinality({ f[1] : f \in GroupFacts }) = Cardinality(GroupFacts)
 DocsExact == OverviewNames = RegistryNames /\ DocCmdNames = RegistryNames /\ ShippedDocs = RenderedDocs
-MarksAgree == DefaultMarked = DocDefaultNames
+MarksAgree == DefaultMarked = DocDefaultNames /\ DefaultMarked = CliDefaultNames
+\* the listing follows the registrations made so far (no stale snapshot)
+ListingFollowsRegistration == ListedAfterInit = ListedBeforeInit \cup GroupNames /\ ListedBeforeInit \cap GroupNames = {}
 =============================================================================
